@@ -40,3 +40,33 @@ pub assume_specification<T: ?Sized + serde::Serialize> [serde_json::to_string] (
 #[verifier::external_body]
 pub broadcast proof fn axiom_to_string_status(t: &http::StatusCode, s: String)
     ensures #[trigger] vstd::string::to_string_from_display_ensures::<http::StatusCode>(t, s) <==> s@ == status_text(*t) {}
+pub uninterp spec fn relayed_body(up: hyper::body::Incoming, out: http_body_util::combinators::BoxBody<hyper::body::Bytes, hyper::Error>) -> bool;  // frames of `up` mapped by the closure (Kani companion: identity on bytes)
+
+// E9 support types for `body.collect().await`: transparent newtypes around http_body_util::Collected and the boxed error
+#[verifier::external_body]
+pub struct VxCollected(pub http_body_util::Collected<hyper::body::Bytes>);
+#[verifier::external_body]
+pub struct VxCollectError(pub Box<dyn std::error::Error + Send + Sync>);
+pub uninterp spec fn collected_view(c: VxCollected) -> Seq<u8>;
+impl VxCollected {
+    #[verifier::external_body]
+    pub fn to_bytes(self) -> (r: hyper::body::Bytes) ensures bytes_view(r) == collected_view(self) { self.0.to_bytes() }
+}
+impl core::fmt::Display for VxCollectError {
+    #[verifier::external_body]
+    fn fmt(&self, f: &mut core::fmt::Formatter<'_>) -> core::fmt::Result { self.0.fmt(f) }
+}
+impl VxCollectError {
+    #[verifier::external_body]
+    pub fn to_string(&self) -> (r: String) { self.0.to_string() }
+}
+#[verifier::external_body] pub broadcast proof fn axiom_fmt_collect_error() ensures #[trigger] vstd::std_specs::fmt::fmt_req_all::<VxCollectError>() {}
+proof fn lits_headers()
+    ensures crate::common::constants::CLAIMS_HEADER@ == CLAIMS_H(), crate::common::constants::DATE_HEADER@ == DATE_H(),
+            crate::common::constants::AUTHORIZATION_HEADER@ == AUTH_H(), crate::common::constants::AUTHORIZATION_SCHEME@ == "Azure-HMAC-SHA256"@,
+            crate::common::constants::CLAIMS_IS_ROOT@ == "isRoot"@,
+            CLAIMS_H() != DATE_H(), CLAIMS_H() != AUTH_H(), DATE_H() != AUTH_H(),
+{
+    reveal_strlit("x-ms-azure-host-claims"); reveal_strlit("x-ms-azure-host-date"); reveal_strlit("x-ms-azure-host-authorization");
+    assert(CLAIMS_H().len() == 22); assert(DATE_H().len() == 20); assert(AUTH_H().len() == 29);
+}
